@@ -4,6 +4,7 @@ mod c04;
 mod c18;
 mod dec;
 mod lab;
+mod c05;
 mod c10;
 mod c12;
 mod c14;
@@ -18,6 +19,7 @@ fn main() {
         "c03" => c03::run(&args),
         "c04" => c04::run(&args),
         "c18" => c18::run(&args),
+        "c05" => c05::run(&args),
         "c10" => c10::run(&args),
         "c12" => c12::run(&args),
         "c14" => c14::run(&args),
